@@ -44,9 +44,10 @@ namespace cnl {
         template<>
         struct overflow_polarity<add_op> {
             template<typename Lhs, typename Rhs>
-            [[nodiscard]] constexpr auto operator()(Lhs const&, Rhs const& rhs) const
+            [[nodiscard]] constexpr auto operator()(Lhs const& lhs, Rhs const& rhs) const
             {
-                return measure_polarity(rhs);
+                // a sum can only exceed the maximum if both operands are positive
+                return (lhs > Lhs{} && rhs > Rhs{}) ? polarity::positive : polarity::negative;
             }
         };
 
@@ -55,7 +56,8 @@ namespace cnl {
             template<typename Lhs, typename Rhs>
             [[nodiscard]] constexpr auto operator()(Lhs const&, Rhs const& rhs) const
             {
-                return -measure_polarity(rhs);
+                // a difference can only exceed the maximum if the subtrahend is negative
+                return (rhs < Rhs{}) ? polarity::positive : polarity::negative;
             }
         };
 
